@@ -41,6 +41,9 @@ Give(ids, to) == [id \in DOMAIN owner |-> IF \E q \in 1..Len(ids) : ids[q] = id 
 
 Init == /\ \/ objs = [nm \in Names |-> IF nm = "a" THEN [kind |-> "consumer", arr |-> [q \in 1..N |-> q], tf |-> 0, tb |-> 0, inited |-> 0] ELSE NoObj]
               /\ owner = [id \in 1..N |-> "a"] /\ nextid = N + 1 /\ scen = "consumer"
+           \* ArrayConsumer::empty(): uninit_array(), taken_front = N, taken_back = 0 - owns nothing
+           \/ objs = [nm \in Names |-> IF nm = "a" THEN [kind |-> "consumer", arr |-> [q \in 1..N |-> 0], tf |-> N, tb |-> 0, inited |-> 0] ELSE NoObj]
+              /\ owner = <<>> /\ nextid = 1 /\ scen = "consumer_empty"
            \/ objs = [nm \in Names |-> IF nm = "a" THEN [kind |-> "builder", arr |-> [q \in 1..N |-> 0], tf |-> 0, tb |-> 0, inited |-> 0] ELSE NoObj]
               /\ owner = <<>> /\ nextid = 1 /\ scen = "builder"
         /\ handed = <<>> /\ clones = 0 /\ err = FALSE /\ hist = <<>>
